@@ -906,6 +906,10 @@ func registerSyn() {
 		reg(&plugins.Plugin{Name: "syn_fail",
 			Setup4: func(args ...string) (handler.Handler4, error) { return nil, fmt.Errorf("syn_fail: setup refused") },
 			Setup6: func(args ...string) (handler.Handler6, error) { return nil, fmt.Errorf("syn_fail: setup refused") }})
+		// a failing setup that hands back a usable handler TOGETHER with its error (several built-in plugins do): still a failure
+		reg(&plugins.Plugin{Name: "syn_failh",
+			Setup4: func(args ...string) (handler.Handler4, error) { return synHandler4("pass", 99), fmt.Errorf("syn_failh: setup refused") },
+			Setup6: func(args ...string) (handler.Handler6, error) { return synHandler6("pass", 99), fmt.Errorf("syn_failh: setup refused") }})
 		reg(&plugins.Plugin{Name: "syn_nilh",
 			Setup4: func(args ...string) (handler.Handler4, error) { return nil, nil },
 			Setup6: func(args ...string) (handler.Handler6, error) { return nil, nil }})
@@ -1041,7 +1045,11 @@ func runLoads(t *Trace, seed int64, maxList int) {
 	mk := func(l []string) *config.ServerConfig {
 		sc := &config.ServerConfig{}
 		for i, k := range l {
-			sc.Plugins = append(sc.Plugins, config.PluginConfig{Name: nameOf[k], Args: []string{"pass", strconv.Itoa(i + 1)}})
+			name := nameOf[k]
+			if k == "fail" && r.Intn(2) == 0 {
+				name = "syn_failh"
+			}
+			sc.Plugins = append(sc.Plugins, config.PluginConfig{Name: name, Args: []string{"pass", strconv.Itoa(i + 1)}})
 		}
 		return sc
 	}
